@@ -15,11 +15,17 @@ def exc_diff(spec, mods, exc):
             where = fr.name
             line = (fr.line or "")[:80]
     pat = "mod-at-end-of-emptied-block" if f18_pattern(spec, mods) else "other"
+    ends_in_call = any(
+        m["op"] in ("ins", "rep") and isinstance(m["p"], list) and [t for t in m["p"] if t[0] not in ("lab", "cfi")][-1:]
+        and [t for t in m["p"] if t[0] not in ("lab", "cfi")][-1][0] in ("call", "icall")
+        for m in mods
+    )
     return C.D(
         "apply-raised",
         r_exc=type(exc).__name__,
         r_where=where,
         r_pattern=pat,
+        r_patch_ends_in_call=ends_in_call,
         msg=str(exc)[:160],
         line=line,
     )
@@ -29,10 +35,55 @@ def is_documented_refusal(exc):
     return isinstance(exc, AssertionError) and "modifications overlap" in str(exc)
 
 
+def label_roles(spec, mods):
+    """Role description of every label for discrepancy signatures (never used by the oracle)."""
+    nins = {}
+    edits = {}
+    order = []
+    for s in spec["sections"]:
+        for b in s["blocks"]:
+            nins[b["n"]] = len(b["i"])
+            order.append(b)
+    for m in mods:
+        n = nins[m["b"]]
+        e = edits.setdefault(m["b"], set())
+        if m["op"] == "ins":
+            e.add("ins")
+        else:
+            k, c = m["k"], m.get("n", 0)
+            if k == 0 and c == n:
+                e.add("whole-proxy" if m.get("proxy") else "whole")
+            else:
+                if k == 0:
+                    e.add("head")
+                if k + c == n:
+                    e.add("tail")
+                if k > 0 and k + c < n:
+                    e.add("mid")
+    roles = {}
+    for i, b in enumerate(order):
+        nxt = order[i + 1]["n"] if i + 1 < len(order) else None
+        base = {
+            "r_owner_func": bool(b.get("f")) and spec.get("functions", True),
+            "r_owner_kind": b["k"],
+            "r_owner_head_deleted": "head" in edits.get(b["n"], ()),
+            "r_owner_tail_deleted": "tail" in edits.get(b["n"], ()),
+            "r_owner_whole_deleted": bool({"whole", "whole-proxy"} & edits.get(b["n"], set())),
+            "r_next_proxied": nxt is not None and "whole-proxy" in edits.get(nxt, ()),
+        }
+        for L in Lg.start_labels(b):
+            roles[L] = dict(base, r_label="start")
+        if Lg.func_label(b):
+            roles[Lg.func_label(b)] = dict(base, r_label="start")
+        for L in b.get("le", ()):
+            roles[L] = dict(base, r_label="at_end")
+    return roles
+
+
 ASPECTS = {
     "bytes": lambda E, O: C.bytes_diffs(E, O),
-    "labels": lambda E, O: C.label_diffs(E, O),
-    "edges": lambda E, O: C.edge_diffs(E, O),
+    "labels": lambda E, O: C.label_diffs(E, O, roles=getattr(E, "label_roles", None)),
+    "edges": lambda E, O: C.edge_diffs(E, O, getattr(E, "spec", None)),
     "functions": lambda E, O: C.function_diffs(E, O),
     "symexprs": lambda E, O: C.symexpr_diffs(E, O),
     "ann": lambda E, O: C.ann_diffs(E, O),
@@ -42,6 +93,8 @@ ASPECTS = {
 def run_scenario(spec, mods, aspects, problem_kinds=(), want_world=False):
     """-> (outcome string, diffs, world, expected listing, observed listing)"""
     E, expect = Lg.expected(spec, mods)
+    E.label_roles = label_roles(spec, mods)
+    E.spec = spec
     w, exc = Lg.rewrite(spec, mods)
     if exc is not None:
         if expect is not None and is_documented_refusal(exc):
